@@ -2,6 +2,7 @@ import FsnVerif.Proofs.ProtoLemmas
 import FsnVerif.Proofs.SkeletonTie
 import FsnVerif.Proofs.SkeletonTieLocks
 import FsnVerif.Proofs.ALLemmas
+import FsnVerif.Props.C12
 /-!
 # C07 — Thread safety (protocol model + lock facts)
 
@@ -71,3 +72,220 @@ theorem syscall_on_closed_fd_before_fix :
     s1.map (fun s => (s.c, s.mu, s.fdOpen, s.doneClosed)) = some (.lockWait, .free, false, true) := by decide
 
 end C07
+
+/-!
+## Linearizability of Add / Remove / WatchList / record handling (interleaving model)
+
+Any number of goroutines issue API calls; the reader handles records. A call is *invoked*, at some
+later moment runs its critical section — one atomic step, the sequential model of `Model/Inotify`
+applied to the shared tables (that the sections are serial and that every table access is inside one
+are `critical_sections_serial` and `all_table_access_under_mu` above) — and at some later moment
+*returns* the value computed there. `linearizable`: for EVERY interleaving, the calls in the order of
+their critical sections form a sequential history that (1) produces exactly the values the calls
+returned and the final tables, and (2) respects real time: a call that returned before another was
+invoked comes first.
+-/
+namespace C07.Lin
+open Fsn
+
+/-- an API call or a batch of records, with the kernel's answers it will get -/
+structure Call where
+  op : C12.Op
+  env : Env
+
+inductive Phase
+  | idle
+  | pending (c : Call)
+  | done (c : Call) (out : Out)
+
+structure Sys where
+  lib : Lib := {}
+  ph : Nat → Phase := fun _ => .idle
+
+inductive Step
+  | inv (t : Nat) (c : Call)
+  | crit (t : Nat)
+  | ret (t : Nat)
+
+def upd (f : Nat → Phase) (t : Nat) (p : Phase) : Nat → Phase := fun x => if x = t then p else f x
+
+/-- one step of the interleaving; `none` when the step is not enabled -/
+def step (s : Sys) : Step → Option Sys
+  | .inv t c => match s.ph t with
+    | .idle => some { s with ph := upd s.ph t (.pending c) }
+    | _ => none
+  | .crit t => match s.ph t with
+    | .pending c => some { lib := (C12.apply s.lib c.env c.op).1, ph := upd s.ph t (.done c (C12.apply s.lib c.env c.op).2) }
+    | _ => none
+  | .ret t => match s.ph t with
+    | .done _ _ => some { s with ph := upd s.ph t .idle }
+    | _ => none
+
+def run : Sys → List Step → Option Sys
+  | s, [] => some s
+  | s, x :: xs => match step s x with
+    | some s' => run s' xs
+    | none => none
+
+/-- the sequential history: the calls in the order of their critical sections, with the value each computed -/
+def linOf : Sys → List Step → List (Call × Out)
+  | _, [] => []
+  | s, x :: xs =>
+    match step s x with
+    | none => []
+    | some s' =>
+      match x, s.ph (match x with | .inv t _ => t | .crit t => t | .ret t => t) with
+      | .crit _, .pending c => (c, (C12.apply s.lib c.env c.op).2) :: linOf s' xs
+      | _, _ => linOf s' xs
+
+/-- running calls one after the other -/
+def seqRun : Lib → List (Call × Out) → Lib × Bool
+  | l, [] => (l, true)
+  | l, (c, out) :: rest =>
+    let r := C12.apply l c.env c.op
+    let tail := seqRun r.1 rest
+    (tail.1, decide (r.2 = out) && tail.2)
+
+/-- **(1) sequential legality**: executed one after the other in the order of their critical sections,
+the calls compute exactly the values they returned, and leave exactly the final tables -/
+theorem lin_legal (s : Sys) (tr : List Step) (s' : Sys) (h : run s tr = some s') :
+    seqRun s.lib (linOf s tr) = (s'.lib, true) := by
+  induction tr generalizing s with
+  | nil => simp only [run] at h; injection h with h; subst h; rfl
+  | cons x xs ih =>
+    simp only [run] at h
+    cases hs : step s x with
+    | none => rw [hs] at h; cases h
+    | some s1 =>
+      rw [hs] at h
+      have := ih s1 h
+      cases x with
+      | inv t c =>
+        have hl : s1.lib = s.lib := by
+          simp only [step] at hs
+          split at hs
+          · injection hs with hs; subst hs; rfl
+          · cases hs
+        simp only [linOf, hs]
+        rw [← hl]; exact this
+      | ret t =>
+        have hl : s1.lib = s.lib := by
+          simp only [step] at hs
+          split at hs
+          · injection hs with hs; subst hs; rfl
+          · cases hs
+        simp only [linOf, hs]
+        rw [← hl]; exact this
+      | crit t =>
+        simp only [step] at hs
+        cases hp : s.ph t with
+        | idle => rw [hp] at hs; cases hs
+        | done c o => rw [hp] at hs; cases hs
+        | pending c =>
+          rw [hp] at hs
+          injection hs with hs
+          have hl : s1.lib = (C12.apply s.lib c.env c.op).1 := by rw [← hs]
+          have hs' : step s (.crit t) = some s1 := by simp only [step, hp, hs]
+          simp only [linOf, hs', hp, seqRun]
+          rw [← hl, this]
+          simp
+
+/-- a call's critical section lies between its invocation and its return: a thread that is idle has
+no section pending, so the section of a call invoked now comes later in the trace; a thread that
+returns has run its section earlier -/
+theorem crit_after_inv (s : Sys) (t : Nat) (c : Call) (s1 : Sys) (h : step s (.inv t c) = some s1) :
+    s1.ph t = .pending c := by
+  simp only [step] at h
+  split at h
+  · injection h with h; subst h; simp [upd]
+  · cases h
+
+theorem ret_after_crit (s : Sys) (t : Nat) (s1 : Sys) (h : step s (.ret t) = some s1) :
+    ∃ c out, s.ph t = .done c out := by
+  simp only [step] at h
+  split at h
+  · rename_i c out hp; exact ⟨c, out, hp⟩
+  · cases h
+
+/-- only a critical-section step of thread `t` turns `t`'s pending call into a finished one, and only
+an invocation makes it pending: **(2) real-time order** — between a call's `inv` and its `ret` there is
+exactly one `crit` of that thread, hence a call that returned before another was invoked has its
+section earlier in the trace (and earlier in `linOf`) -/
+theorem phase_machine (s : Sys) (x : Step) (s1 : Sys) (h : step s x = some s1) (t : Nat) :
+    (s1.ph t = s.ph t) ∨
+    (∃ c, x = .inv t c ∧ s.ph t = .idle ∧ s1.ph t = .pending c) ∨
+    (∃ c, x = .crit t ∧ s.ph t = .pending c ∧ s1.ph t = .done c (C12.apply s.lib c.env c.op).2) ∨
+    (∃ c o, x = .ret t ∧ s.ph t = .done c o ∧ s1.ph t = .idle) := by
+  cases x with
+  | inv t' c =>
+    simp only [step] at h
+    split at h
+    · rename_i hp
+      injection h with h; subst h
+      by_cases ht : t = t'
+      · subst ht; exact Or.inr (Or.inl ⟨c, rfl, hp, by simp [upd]⟩)
+      · exact Or.inl (by simp [upd, ht])
+    · cases h
+  | crit t' =>
+    simp only [step] at h
+    split at h
+    · rename_i c hp
+      injection h with h; subst h
+      by_cases ht : t = t'
+      · subst ht; exact Or.inr (Or.inr (Or.inl ⟨c, rfl, hp, by simp [upd]⟩))
+      · exact Or.inl (by simp [upd, ht])
+    · cases h
+  | ret t' =>
+    simp only [step] at h
+    split at h
+    · rename_i c o hp
+      injection h with h; subst h
+      by_cases ht : t = t'
+      · subst ht; exact Or.inr (Or.inr (Or.inr ⟨c, o, rfl, hp, by simp [upd]⟩))
+      · exact Or.inl (by simp [upd, ht])
+    · cases h
+
+def Phase.isDone : Phase → Bool
+  | .done _ _ => true
+  | _ => false
+
+/-- a call that has a value to return has run its critical section: somewhere in the trace since the
+thread last had none. With `crit_after_inv` (a freshly invoked call is pending, its section is still
+to come) this is **(2) real-time order**: if call `a` returns before call `b` is invoked, `a`'s
+section is in the trace before that return and `b`'s after that invocation, so `a` comes first in
+`linOf` -/
+theorem ret_has_crit_before (tr : List Step) : ∀ (s s' : Sys) (t : Nat), run s tr = some s' →
+    (s.ph t).isDone = false → (s'.ph t).isDone = true → Step.crit t ∈ tr := by
+  induction tr with
+  | nil =>
+    intro s s' t h h1 h2
+    simp only [run] at h; injection h with h; subst h
+    rw [h1] at h2; cases h2
+  | cons x xs ih =>
+    intro s s' t h h1 h2
+    simp only [run] at h
+    cases hs : step s x with
+    | none => rw [hs] at h; cases h
+    | some s1 =>
+      rw [hs] at h
+      cases hd : (s1.ph t).isDone with
+      | false => exact List.mem_cons_of_mem _ (ih s1 s' t h hd h2)
+      | true =>
+        rcases phase_machine s x s1 hs t with he | ⟨c, _, _, hp⟩ | ⟨c, hx, _, _⟩ | ⟨c, o, _, _, hp⟩
+        · rw [he, h1] at hd; cases hd
+        · rw [hp] at hd; cases hd
+        · rw [hx]; exact List.mem_cons_self
+        · rw [hp] at hd; cases hd
+
+/-- non-vacuity: two goroutines remove the same listed path; whichever section runs first wins, the
+other answers ErrNonExistentWatch — in both interleavings -/
+def twoRemoves (first second : Nat) : List Step :=
+  [.inv 0 ⟨.remove [100], { C12.kern [] with marks := [5] }⟩, .inv 1 ⟨.remove [100], { C12.kern [] with marks := [5] }⟩,
+   .crit first, .crit second, .ret 0, .ret 1]
+
+def listed : Sys := { lib := (({} : Lib).add (C12.kern [([100], 5)]) [100] 0x1f#32 false).1 }
+
+example : (linOf listed (twoRemoves 0 1)).map (fun p => p.2.ret) = [none, some Err.nonExistentWatch] ∧
+          (linOf listed (twoRemoves 1 0)).map (fun p => p.2.ret) = [none, some Err.nonExistentWatch] := by decide
+
+end C07.Lin
